@@ -222,4 +222,5 @@ def run():
             problems.append('%s: %s' % (case['name'], e))
         finally:
             shutil.rmtree(jobdir, ignore_errors=True)
-    return {'problems': problems, 'cases_byte_identical': done}
+    from . import scanchild
+    return {'problems': problems, 'cases_byte_identical': done, 'low_seam': bool(scanchild.low_seam_available())}
